@@ -20,6 +20,7 @@ RULE = (
     "equal the original's, and if the unrestricted parse succeeds every other track is unchanged. "
     "Non-trivial iff the file has >= 3 tracks and a selection is neither None nor all-present, or a "
     "section was replaced; distinct = distinct (file, selections, replacement)."
+    ' Files in which a header occurs twice with different bodies: restricted parses must agree with the unrestricted parse of the same file (which body counts is not asserted).'
 )
 ASSUMPTIONS = [
     "selections are sequences of (Instrument, Difficulty) pairs as documented",
